@@ -50,6 +50,11 @@ CHECKS = {
    text="Exhaustive: all 147 keywords (4 letter-case variants, plus none/transparent), every 3- and 4-digit hex string, 6-/8-digit hex on a byte grid, rgb()/rgba() with numbers and percentages (out-of-range, fractional, negative, optional alpha), hsl()/hsla() with hues beyond a turn; each with RGBA from the spec, and the packed/hex accessors cross-checked on every parsed colour with Color(c.hex) == c. Accessor machine: histories of channel/opacity/packed/hex/HSL writes with the expected colour (SetterIsolation is an action property of the spec), HSL reads compared with the spec's ToHsl.",
    note="Trusted: TLC, Color.tla, the keyword table typed once (it agrees with the library on 146/147 entries; the 147th was the aliceblue defect). Real-valued channels may round either way; HSL channels +-1 LSB; hue units (deg/turn) in hsl() are CSS Color 4 and not demanded; alpha after the 24-bit rgb/bgr setters is unspecified.",
    design="5/C13"),
+ "C11": dict(
+   technique="TLA+ Viewport (the eight steps of SVG 2 section 8.2 in exact rationals; invariant HenceHolds = inside/covers/touches/aligned) enumerated by TLC; every cell replayed through Viewbox.viewbox_transform, Viewbox.transform, nested and root <svg> parsing",
+   text="Exhaustive over the 10 align values x {absent, meet, slice} crossed with element and viewBox sizes in both aspect directions and origins (fractional, negative); zero-sized viewBoxes must disable rendering, incomplete ones give the identity. The 'hence' half of the property is model-checked on the specification; the real library must produce the spec's (sx, sy, tx, ty) by every route, and a viewBox-filling rect must land on the spec's image rectangle; size-supply routes (units, percentages, caller width/height as numbers or lengths, default to the viewBox) are rotated by seed; an ancestor's preserveAspectRatio must not leak into a nested svg.",
+   note="Trusted: TLC, Rat.tla, Viewport.tla, XML assembly in the harness. Quick tier: 4 sizes per dimension; thorough: 10 element sizes x 8 viewBox sizes over six orders of magnitude.",
+   design="5/C11"),
 }
 NOT_BUILT = "check not built yet (planned: DESIGN.md section 5)"
 
